@@ -93,7 +93,9 @@ fn check_regular_value(v: &Value, sm: &SourceMap, path: &str) -> Result<(), (Str
         if o.get(key).is_some() && want.is_none() {
             return Err((format!("{key}/present-without-value"), format!("{path}: {key} = {} although the map has none", o[key])));
         }
-        if have != want {
+        // a debug id may be written in any spelling that reads back as the same id
+        let same_id = key == "debug_id" && matches!((&have, sm.get_debug_id()), (Some(h), Some(id)) if h.parse::<debugid::DebugId>().ok() == Some(id));
+        if have != want && !same_id {
             return Err((format!("{key}/value"), format!("{path}: {key} = {have:?}, map has {want:?}")));
         }
     }
